@@ -30,6 +30,8 @@ FAILS = [
     "int('x%d' % @K)",
     "raise CustomInitError(@K, 2)",
     "raise UErr2()",
+    "raise CustomValueError(@K, 9)",
+    "raise CodeError(@K)",
     "assert @K < 0, 'assert %d' % @K",
 ]
 CONDS = ['x == @K', 'x > @K', 'n > @K', 'b', 'len(xs) > @K', 'not b and x < @K']
@@ -124,7 +126,7 @@ def classify(p, m, r):
 def run(tier):
   R = common.Run('C12', tier, 'translation_validation', ENCODED)
   rnd = random.Random(R.seed + 31)
-  sk = [p for p in gen.skeletons(2) if 'leaf_raise' not in p.tags and not ({'tryexc', 'handler', 'tryexcfin', 'handlerfin'} & p.tags)]
+  sk = [p for p in gen.skeletons(2) if 'leaf_raise' not in p.tags and not ({'tryexc', 'handler', 'tryexcfin', 'handlerfin', 'tryelse'} & p.tags)]
   if tier == 'quick':
     base = rnd.sample(sk, 50) + gen.random_programs(50, R.seed + 13, FEATURES)
   else:
